@@ -38,10 +38,29 @@ pub fn exec(case: &Value) -> Value {
         "xpath_pair" => {
             let a = case["a"].as_str().unwrap_or("").to_string();
             let b = case["b"].as_str().unwrap_or("").to_string();
+            // the second path is parsed on another thread (equality and hashing are about the texts, wherever the paths
+            // were made), and each is also obtained by `clone_from` into the other's storage
+            let b2 = b.clone();
+            let other = std::thread::spawn(move || catch_unwind(move || XPath::parse(&b2))).join();
             match catch_unwind(move || (XPath::parse(&a), XPath::parse(&b))) {
                 Err(_) => json!("panic"),
                 Ok((Ok(p), Ok(q))) => {
                     let eq = p == q;
+                    match other {
+                        Ok(Ok(Ok(q2))) => {
+                            if (q2 == q) != true || (p == q2) != eq || h(&q2) != h(&q) {
+                                return json!({"parsed-on-another-thread": {"eq_same_text": q2 == q, "eq": p == q2, "same_hash": h(&q2) == h(&q)}});
+                            }
+                        }
+                        _ => return json!("other-thread-failed"),
+                    }
+                    let mut into_p = p.clone();
+                    into_p.clone_from(&q);
+                    let mut into_q = q.clone();
+                    into_q.clone_from(&p);
+                    if into_p != q || into_p.segments() != q.segments() || into_p.to_string_lossy() != q.to_string_lossy() || into_q != p || into_q.segments() != p.segments() {
+                        return json!({"clone_from-differs": {"segments": into_p.segments(), "expected": q.segments()}});
+                    }
                     // equal paths must hash equally; unequal ones may collide, so only the implication is reported
                     json!({"eq": eq, "hash_ok": !eq || h(&p) == h(&q)})
                 }
